@@ -1696,17 +1696,24 @@ fn corpus_cases() -> Vec<Case> {
 }
 
 // ---------------------------------------------------------------- default-thread recovery (index.json)
-fn default_recovery_check(res: &mut RunResult, with_child: bool, case_id: i64) -> String {
+/// `child`: 0 = none, 1 = a branch child, 2 = a handoff child, 3 = both (created after the default thread, same workspace key)
+fn default_recovery_check(res: &mut RunResult, child: u8, case_id: i64) -> String {
+    let with_child = child != 0;
     let scratch = Scratch::new("c04d");
     let root = scratch.path().to_path_buf();
     let o = open(&root);
     let id = o.store.ensure_default().unwrap();
     o.store.append_message(&id, "user".into(), "cli".into(), "hello".into()).unwrap();
     let mut children = vec![];
-    if with_child {
+    if child & 1 != 0 {
         std::thread::sleep(Duration::from_millis(3));
-        let (child, _, _) = o.store.branch(&id, None, None, None, "user".into(), "cli".into()).unwrap();
-        children.push(child);
+        let (c, _, _) = o.store.branch(&id, None, None, None, "user".into(), "cli".into()).unwrap();
+        children.push(c);
+    }
+    if child & 2 != 0 {
+        std::thread::sleep(Duration::from_millis(3));
+        let (c, _, _) = o.store.handoff(&id, None, (Some("sum".into()), None), None, None, ("user".into(), "cli".into())).unwrap();
+        children.push(c);
     }
     let existing: Vec<String> = o.store.list().into_iter().map(|m| m.continuity_id).collect();
     drop(o);
@@ -1720,8 +1727,12 @@ fn default_recovery_check(res: &mut RunResult, with_child: bool, case_id: i64) -
     let mut wss: Vec<String> = vec![];
     let raw = std::fs::read(root.join("data").join("events.jsonl")).unwrap_or_default();
     let mut my_ws = 0usize;
+    let mut child_ids: Vec<String> = vec![]; // threads whose stream carries a branched / handoff frame
     for line in raw.split_inclusive(|b| *b == b'\n') {
         let Ok(ev) = serde_json::from_slice::<Event>(line) else { continue };
+        if matches!(ev.kind, EventKind::ContinuityBranched { .. } | EventKind::ContinuityHandoffCreated { .. }) && !child_ids.contains(&ev.session_id) {
+            child_ids.push(ev.session_id.clone());
+        }
         if let EventKind::ContinuityCreated { workspace, .. } = &ev.kind {
             if !ids.contains(&ev.session_id) {
                 ids.push(ev.session_id.clone());
@@ -1740,7 +1751,8 @@ fn default_recovery_check(res: &mut RunResult, with_child: bool, case_id: i64) -
         Ok(g) => match ids.iter().position(|x| x == g) { Some(i) => format!("(Some {})", i + 1), None => "(Some 999999)".to_string() },
         Err(_) => "None".to_string(),
     };
-    let term = format!("(Some ({}, [{}], {}))", my_ws, created.join("; "), got_term);
+    let child_terms: Vec<u64> = child_ids.iter().filter_map(|c| ids.iter().position(|x| x == c)).map(|i| i as u64 + 1).collect();
+    let term = format!("(Some ({}, [{}], {}, {}))", my_ws, created.join("; "), coq_list_n(&child_terms), got_term);
     match got {
         Ok(g) if g == id => {}
         Ok(g) if existing.contains(&g) => {
@@ -1989,8 +2001,10 @@ fn main() {
     // default-thread recovery (the only claim about index.json): oracle + model terms riding on the first cases
     let mut recover_terms: Vec<String> = vec![];
     if a.replay.is_none() {
-        recover_terms.push(default_recovery_check(&mut res, false, -100_001));
-        recover_terms.push(default_recovery_check(&mut res, true, -100_002));
+        recover_terms.push(default_recovery_check(&mut res, 0, -100_001));
+        recover_terms.push(default_recovery_check(&mut res, 1, -100_002));
+        recover_terms.push(default_recovery_check(&mut res, 2, -100_003));
+        recover_terms.push(default_recovery_check(&mut res, 3, -100_004));
     }
 
     for (ci, case) in cases.iter().enumerate() {
